@@ -167,7 +167,7 @@ func (x *Exec) merge2(a, b *State) *State {
 	// refinements of the merged condition (a.PC or b.PC).
 	// The common conjuncts are factored out so that selectors stay small.
 	common, rests := x.factorPCs([]*smt.Term{a.PC, b.PC})
-	c := rests[0]
+	c := x.splitSelector(a.PC, b.PC, rests[0])
 	out := &State{PC: B.And(common, B.Or(rests[0], rests[1])), heap: map[string]*smt.Term{}, cells: map[*Cell]Value{}, Writes: a.Writes}
 	keys := map[string]*smt.Sort{}
 	for k, v := range a.heap {
